@@ -278,9 +278,27 @@ impl From<_VerificationMethod> for VerificationMethod {
       id,
       controller,
       type_,
-      data,
+      mut data,
       mut properties,
     } = value;
+    // When the method carries additional (custom) properties serde cannot select the tagged variant of the flattened
+    // `MethodData` and falls back to `MethodData::Custom` holding an arbitrary (the last) entry, leaving the actual
+    // verification material in `properties`. Prefer the well-known verification material properties if present.
+    if matches!(data, MethodData::Custom(_)) {
+      for known in ["publicKeyMultibase", "publicKeyBase58", "publicKeyJwk"] {
+        if let Some(material) = properties.get(known) {
+          let mut single_entry = serde_json::Map::with_capacity(1);
+          single_entry.insert(known.to_owned(), material.clone());
+          if let Ok(parsed) = serde_json::from_value::<MethodData>(serde_json::Value::Object(single_entry)) {
+            if let MethodData::Custom(CustomMethodData { name, data: value }) = data {
+              properties.insert(name, value);
+            }
+            data = parsed;
+            break;
+          }
+        }
+      }
+    }
     let key = match &data {
       MethodData::PublicKeyBase58(_) => "publicKeyBase58",
       MethodData::PublicKeyJwk(_) => "publicKeyJwk",
